@@ -12,10 +12,10 @@ cp /repo/go.mod /tmp/alt.mod; cp /repo/go.sum /tmp/alt.sum; echo "replace github
 run() { (cd $T && unshare -n sh -c "ip link set lo up && go test -modfile=/tmp/alt.mod -ldflags=-checklinkname=0 -vet=off -count=1 $1" 2>&1 | tail -${2:-6}); }
 if [ "$demo" != "-" ]; then
   cp "$demo" $T/$dest/zz_triage_test.go
-  echo "--- demo WITHOUT fix (expect FAIL):"; run "$targs -run 'Triage|triage|ZZ|Demo' ./$dest/" 8
+  echo "--- demo WITHOUT fix (expect FAIL):"; run "$targs -run 'Triage|triage|ZZ|Demo|Fix[0-9]' ./$dest/" 8
 fi
 git -C $T apply "$fix" || { echo "FIX DOES NOT APPLY"; exit 1; }
-if [ "$demo" != "-" ]; then echo "--- demo WITH fix (expect ok):"; run "$targs -run 'Triage|triage|ZZ|Demo' ./$dest/" 4; rm -f $T/$dest/zz_triage_test.go; fi
+if [ "$demo" != "-" ]; then echo "--- demo WITH fix (expect ok):"; run "$targs -run 'Triage|triage|ZZ|Demo|Fix[0-9]' ./$dest/" 4; rm -f $T/$dest/zz_triage_test.go; fi
 echo "--- package tests WITH fix:"; run "$targs ./$dest/" 4
 (cd $T && gofmt -l $(git -C $T diff --name-only | grep '\.go$') )
 git -C $T add -A && git -C $T -c user.name=builder -c user.email=builder@example.com commit -qm "$msg" && git -C $T log --oneline | head -1
